@@ -119,11 +119,14 @@ func runC13(p *Program, r *Report) {
 			continue
 		}
 		for _, st := range storesTo(a) {
-			if _, isConst := st.Val.(*ssa.Const); isConst {
-				continue
-			}
-			if reachable(f, nil, validE)[st.Block()] {
-				okV = false
+			// the stored value may be the merged result of a helper: look at what flows in on each edge
+			for _, lf := range valueLeaves(st.Val, st.Block()) {
+				if _, isConst := lf.val.(*ssa.Const); isConst {
+					continue
+				}
+				if reachable(f, nil, validE)[lf.from] {
+					okV = false
+				}
 			}
 		}
 	}
